@@ -10,6 +10,14 @@ DEFAULT_WEIGHTS = {
 }
 
 
+def dead_uids(rnd, us, p=0.3):
+    """UIDs above every live one (expunged long ago, or never assigned): a single one, or a whole range of them."""
+    if rnd.random() >= p:
+        return []
+    m = max(us)
+    return rnd.choice([[m + 7], [m + 1, m + 2, m + 3], [m + 2, m + 3, m + 4, m + 5]])
+
+
 def pick(rnd, weights):
     items = [(k, w) for k, w in weights.items() if w > 0]
     tot = sum(w for _, w in items)
@@ -122,7 +130,7 @@ async def step(w: World, rnd, weights, names, opts):
         b = w.boxes[ss.selected]
         us = [m.uid for m in b.msgs if m.uid is not None]
         if us:
-            pick_u = sorted(rnd.sample(us, rnd.randint(1, min(3, len(us))))) + ([max(us) + 7] if rnd.random() < 0.3 else [])
+            pick_u = sorted(rnd.sample(us, rnd.randint(1, min(3, len(us))))) + dead_uids(rnd, us)
             fl = rnd.sample(opts.get("flag_pool", FLAG_POOL), rnd.randint(1, 2))
             await w.op_store(ss, pick_u, rnd.choice(["add", "remove", "replace"]), fl, silent=rnd.random() < 0.3, uid_mode=True)
     elif op == "expunge" and sel:
@@ -131,7 +139,7 @@ async def step(w: World, rnd, weights, names, opts):
         b = w.boxes[ss.selected]
         us = [m.uid for m in b.msgs if m.uid is not None]
         if us:
-            await w.op_expunge(ss, uids=sorted(rnd.sample(us, rnd.randint(1, len(us)))))
+            await w.op_expunge(ss, uids=sorted(rnd.sample(us, rnd.randint(1, len(us)))) + dead_uids(rnd, us, 0.2))
     elif op in ("copy", "move") and sel and n:
         if op == "move" and ss.readonly and rnd.random() < 0.7:
             return "skip"
@@ -140,7 +148,7 @@ async def step(w: World, rnd, weights, names, opts):
         b = w.boxes[ss.selected]
         us = [m.uid for m in b.msgs if m.uid is not None]
         if us:
-            pick_u = sorted(rnd.sample(us, rnd.randint(1, min(3, len(us))))) + ([max(us) + 5] if rnd.random() < 0.3 else [])
+            pick_u = sorted(rnd.sample(us, rnd.randint(1, min(3, len(us))))) + dead_uids(rnd, us)
             star = None
             if rnd.random() < 0.3 and len(us) == len(b.msgs):
                 # the set written with `*` (the highest UID of the mailbox, whatever the message count is)
@@ -183,7 +191,7 @@ async def step(w: World, rnd, weights, names, opts):
         b = w.boxes[ss.selected]
         us = [m.uid for m in b.msgs if m.uid is not None]
         if us:
-            await w.op_fetch(ss, sorted(rnd.sample(us, rnd.randint(1, len(us)))), "FLAGS BODY.PEEK[HEADER.FIELDS (X-CID)]", uid_mode=True)
+            await w.op_fetch(ss, sorted(rnd.sample(us, rnd.randint(1, len(us)))) + dead_uids(rnd, us, 0.2), "FLAGS BODY.PEEK[HEADER.FIELDS (X-CID)]", uid_mode=True)
     elif op == "deliver_stalled" and sel and n and not ss.readonly:
         await deliver_while_executing(w, rnd, ss)
     elif op == "observe":
